@@ -1,0 +1,6 @@
+//go:build !verif
+
+package dataframe
+
+// applyGate is a no-op unless the package is built with the "verif" tag.
+func applyGate(row int, phase int) {}
